@@ -1238,7 +1238,8 @@ fn eval_bin_case(bin: &Path, case: &BinCase, doc: &Documented, oracle: &Oracle) 
         "toml" => "c14:toml-path-ignored",
         _ => "c14:wrong-default-dir",
     };
-    let exists = cwd.join(&kind).is_dir();
+    // an empty path names no directory (read_dir("") fails): the run must fail, never fall back to another directory
+    let exists = !expected_path.trim().is_empty() && cwd.join(&kind).is_dir();
     let expect_desc = format!("analysed directory = {} ({}), patterns = {:?}", expected_path, source, expected_lists);
     if !exists {
         if out.ok() || !report_untouched {
@@ -1372,7 +1373,7 @@ fn c14_bin(r: &mut CheckResult, bin: &Path, doc: &Documented, tier: &str, rng: &
         vec![None, Some("TomlDir".into()), Some("./contracts".into()), Some("@ABS/TomlDir".into())]
     };
     // a toml path that does not exist: the run must fail (never fall back to ./contracts)
-    let tpaths: Vec<Option<String>> = tpaths.into_iter().chain([Some("MissingDir".to_string())]).collect();
+    let tpaths: Vec<Option<String>> = tpaths.into_iter().chain([Some("MissingDir".to_string()), Some(String::new())]).collect();
     let mut cases: Vec<BinCase> = vec![];
     for flag in &flags {
         for contracts in [true, false] {
